@@ -55,14 +55,15 @@ def affine_model(rng, delta):
 
 
 def float_power_singular(ode, s, pt, lay, gi, g):
-    """the open finding, by cause: sympy differentiates u**2.0 (floating-point exponent) as 2.0*u**2.0*u'/u, which
-    is 0/0 where u vanishes; with the exponents written as exact numbers the same derivative is finite and right"""
+    """the open finding, by cause: sympy differentiates u**2.0 (floating-point exponent) and (Y/2)**2 (unevaluated
+    base) as n*u**n*u'/u, which is 0/0 where u vanishes; for the evaluated rate with exact exponents the same
+    derivative is finite and right"""
     if math.isfinite(gi) or not math.isfinite(g):
         return False
     import sympy
     try:
         e = ode[f"d{s}_dt"].expr
-        if not any(p.exp.is_Float for p in e.atoms(sympy.Pow)):
+        if not e.atoms(sympy.Pow):
             return False
         e2 = e.replace(lambda a: isinstance(a, sympy.Pow) and a.exp.is_Float,
                        lambda a: sympy.Pow(a.base, sympy.nsimplify(a.exp, rational=True)))
@@ -152,6 +153,12 @@ def check_text(rep, drv, rng, text, delta, fname, points, model=None, extra=None
                 continue
             if margin < 1e-6 or S > 1e8:
                 continue
+            # a sigmoid saturated beyond exp(+-300): its derivative (exp(u)/(1 + exp(u))**2 and the like) cannot be
+            # evaluated in float64 by any straightforward formula; the point decides nothing about the linearisation
+            _, pr0 = pipeline._reference_once(model, pt, None, 0.0)
+            if pr0.sat > 300:
+                rep.count("points_with_saturated_sigmoid_skipped")
+                continue
         else:
             S = max([1.0] + [abs(v) for v in F.values()] + [abs(x) for x in st])
         with np.errstate(all="ignore"):
@@ -169,7 +176,7 @@ def check_text(rep, drv, rng, text, delta, fname, points, model=None, extra=None
             if gname in loc:
                 gi = float(loc[gname])
                 if not close(gi, g, S + abs(g), 1e-8):
-                    key = "C06-derivative-of-float-power-singular-at-zero" if float_power_singular(c.ode, s, pt, lay, gi, g) else None
+                    key = "C06-derivative-of-power-singular-at-zero-of-base" if float_power_singular(c.ode, s, pt, lay, gi, g) else None
                     failing = (f"{gname} = {gi!r} but the derivative of d{s}_dt with respect to {s} is {g!r}",
                                {"kind": "direct", "text": text, "inputs": pt, "delta": delta, "state": s}, key)
                     break
